@@ -433,4 +433,20 @@ theorem fdNd_eq_mulVec (c : FDCfg) (N : Nat) (specs : List (Nat × Nat × Nat))
 
 end FDNd
 
+/-! ### two-point circular sum -/
+section FSum
+variable {K : Type} [CommRing K]
+
+theorem fsumEval_eq_mulVec (n : Nat) (hn : 0 < n) (x : V K) (i : Nat) (hi : i < n) :
+    fsumEval n x i = mulVec (fsumMatrix n) n x i := by
+  unfold fsumEval mulVec fsumMatrix
+  have e : ∀ j, ((if j = i then (1 : K) else 0) + (if j = (i + 1) % n then (1 : K) else 0)) * x j
+      = (if j = i then (1 : K) else 0) * x j + (if j = (i + 1) % n then (1 : K) else 0) * x j := fun j => by ring
+  simp only [e, sumTo_eq_sum, Finset.sum_add_distrib]
+  rw [Finset.sum_eq_single_of_mem i (Finset.mem_range.mpr hi) (fun j _ h => by simp [h]),
+    Finset.sum_eq_single_of_mem ((i + 1) % n) (Finset.mem_range.mpr (Nat.mod_lt _ hn)) (fun j _ h => by simp [h])]
+  simp
+
+end FSum
+
 end Scico.LinOps
